@@ -14,6 +14,7 @@ import (
 	toml "github.com/pelletier/go-toml/v2"
 	"gopkg.in/yaml.v3"
 	"verif/core"
+	"verif/gen"
 	"verif/ref"
 )
 
@@ -584,6 +585,32 @@ func buildC14(tier string) *core.Plan {
 	}
 	formats := []string{"json", "json-pretty", "jsonl", "yaml", "yml", "toml"}
 	nf := int64(len(formats))
+	if tier == "thorough" {
+		// stacks of 4 over the well-formed transforms, and decode(encode(v)) for every generated tree
+		var good []any
+		for _, t := range c14Transforms {
+			if s, ok := t.(string); ok && c14Apply([]any{"a"}, s).why != "malformed arguments" && s != "bogus" {
+				good = append(good, t)
+			}
+		}
+		ng := int64(len(good))
+		n4 := ng * ng * ng * ng
+		spaces = append(spaces, core.Space{Name: "stacks-of-4", N: nv * n4,
+			Desc: func(i int64) any {
+				j := i % n4
+				return map[string]any{"value": vals[i/n4], "transforms": []any{good[(j/(ng*ng*ng))%ng], good[(j/(ng*ng))%ng], good[(j/ng)%ng], good[j%ng]}}
+			},
+			Run: func(c *core.Ctx, i int64) {
+				j := i % n4
+				c14Check(c, vals[i/n4], []any{good[(j/(ng*ng*ng))%ng], good[(j/(ng*ng))%ng], good[(j/ng)%ng], good[j%ng]})
+			}})
+		ga := gen.Alphabet{Scalars: []any{0, -7, 1.5, "", "s", "1", "true", true, "a: b", "x\ny"}, Keys: []string{"a", "b c", "1"}, MaxList: 3, MaxMap: 2}
+		trees := gen.Trees(ga, 4)
+		ntr := int64(len(trees))
+		spaces = append(spaces, core.Space{Name: "decode-inverts-encode-generated", N: ntr * nf,
+			Desc: func(i int64) any { return map[string]any{"value": trees[i/nf], "format": formats[i%nf]} },
+			Run:  func(c *core.Ctx, i int64) { c14RoundTrip(c, trees[i/nf], formats[i%nf]) }})
+	}
 	spaces = append(spaces, core.Space{Name: "decode-inverts-encode", N: nv * nf,
 		Desc: func(i int64) any { return map[string]any{"value": vals[i/nf], "format": formats[i%nf]} },
 		Run:  func(c *core.Ctx, i int64) { c14RoundTrip(c, vals[i/nf], formats[i%nf]) }})
@@ -616,7 +643,7 @@ func buildC14(tier string) *core.Plan {
 		}})
 	return &core.Plan{
 		Spaces: spaces,
-		Rule:   "52 values (scalars, flat/nested maps and lists, list-valued and empty-string entries) x every stack of <=2 (thorough 3) of 29 transform spellings (valid, malformed arguments, unknown, non-string) in map form, list-marker form and $value form; decode(encode(v)) for 6 formats",
+		Rule:   "52 values (scalars, flat/nested maps and lists, list-valued and empty-string entries) x every stack of <=2 of 29 transform spellings and of 3 (thorough: 4) well-formed ones (valid, malformed arguments, unknown, non-string) in map form, list-marker form and $value form; decode(encode(v)) for 6 formats (thorough: also for every tree of <=4 nodes over 10 scalars incl. number- and yaml-looking strings)",
 		Assumptions: []string{"refEncode is built on crypto/sha256, encoding/base64, encoding/json and strings; yaml/toml text is judged by parsing it back with yaml.v3 / go-toml called directly (not through bkl) and comparing values",
 			"not judged: base64/sha256 of containers, join/prefix/tolist over nested containers, toml of non-maps or of empty/mixed arrays, a transform applied to yaml/toml text (exact bytes not fixed)"},
 		Bounds: map[string]any{"values": len(vals), "transforms": len(c14Transforms)},
